@@ -1,5 +1,104 @@
-"""C05 inductive step obligations (symbolic pre-state). Filled in below."""
+"""C05 inductive step: histories of any length.
+
+For each buffering node: a short concrete-shaped history (decided by solver forks over a
+small value/key domain) brings the node's buffers into a reachable shape; then the
+reference counts of every element still referenced are *overwritten with unconstrained
+symbolic integers* (assumed only: count >= number of holds the node itself has), and ONE
+more real element is pushed through the real update().  Assertion, for every counter:
+    count_after - count_before == holds_after - holds_before      (holds from refsem)
+and count_after >= 0.  Since the pre-state counts are arbitrary, the step is independent of
+how many elements flowed before: by induction over steps (and over pipeline depth, _emit
+being balanced) counts equal external holds + the nodes' holds at every quiescent point.
+"""
+from engine.symutil import Verdict, pick
+from harness import syncpipe as SP
+
+UNITS = ["partition2", "partition3", "partition2_key", "punique2_first", "punique2_last", "punique3_first",
+         "punique3_last", "punique2_key_last", "window1", "window2", "window2_partial", "window3", "window3_partial",
+         "collect", "map", "filter", "unique", "acc", "flatten_after_partition"]
+JOINS = ["zip", "combine_latest", "combine_latest_on0", "zip_latest", "union"]
+
+
+def pre(shard, *v):
+    h = shard["h"]
+    for x in v[:h + 1]:
+        if not (0 <= x <= 2):
+            return False
+    i = h + 1
+    if shard.get("join"):
+        for s in v[i:i + h + 1]:
+            if not (0 <= s <= 1):
+                return False
+    return True
+
+
+def body(shard, *v):
+    h = shard["h"]
+    vals = [pick(x, 0, 2) for x in v[:h + 1]]
+    i = h + 1
+    srcs = None
+    if shard.get("join"):
+        srcs = [pick(s, 0, 1) for s in v[i:i + h + 1]]
+        i += h + 1
+    counts = list(v[i:i + h])            # unconstrained symbolic pre-state counts
+    vd = Verdict()
+    if shard.get("join"):
+        sh = {"template": "multi", "join": shard["join"], "nsrc": 2}
+    elif shard["unit"] == "flatten_after_partition":
+        sh = {"template": "chain", "units": ["partition2", "flatten"]}
+    else:
+        sh = {"template": "chain", "units": [shard["unit"]]}
+    state = {}
+
+    def on_step(j, obs):
+        if j == h - 1:
+            # history done: overwrite the live counters with arbitrary values >= their holds
+            held = obs.ref.held()
+            state["before"] = {}
+            for idx, (key, ref) in enumerate(sorted(obs.refs.items())):
+                holds = sum(1 for m in held if m.get("ref") is ref)
+                c = counts[idx]
+                if c < holds:
+                    state["skip"] = True      # outside the representation invariant
+                    c = holds
+                ref.count = c
+                ref.history.append(c)
+                state["before"][key] = (c, holds)
+    flush = [False] * (h + 1)
+    if shard.get("flush_last"):
+        flush[-1] = True
+    obs = SP.run_both(sh, vals, srcs=srcs, nmds=[1] * (h + 1), with_ref=True, on_step=on_step,
+                      flushes=flush if shard.get("unit") == "collect" else None)
+    if state.get("skip"):
+        return ""
+    held = obs.ref.held()
+    name = shard.get("join") or shard["unit"]
+    for key, ref in obs.refs.items():
+        holds_after = sum(1 for m in held if m.get("ref") is ref)
+        if key in state.get("before", {}):
+            c0, h0 = state["before"][key]
+        else:
+            c0, h0 = 0, 0                     # the element pushed in this step
+        if ref.count - c0 != holds_after - h0:
+            vd.add("count-delta-differs-from-holds-delta@%s" % name)
+        if ref.count < 0:
+            vd.add("negative-count@%s" % name)
+    return vd.result()
 
 
 def obligations(tier):
-    return []
+    q = tier == "quick"
+    obls = []
+    hs = (1, 2) if q else (1, 2, 3)
+    for u in UNITS:
+        for h in hs:
+            for fl in ((False, True) if u == "collect" else (False,)):
+                obls.append({"name": "step/%s/h=%d%s" % (u, h, "/flush" if fl else ""), "module": "harness.c05_step",
+                             "body": "body", "pre": "pre", "shard": {"unit": u, "h": h, "flush_last": fl},
+                             "types": ["int"] * (h + 1 + h), "budget": 300 if q else 1200})
+    for j in JOINS:
+        for h in hs:
+            obls.append({"name": "step/%s/h=%d" % (j, h), "module": "harness.c05_step", "body": "body", "pre": "pre",
+                         "shard": {"join": j, "h": h}, "types": ["int"] * (2 * (h + 1) + h),
+                         "budget": 300 if q else 1200})
+    return obls
